@@ -681,6 +681,7 @@ fn spawn_async_ao_list_in_task'''),
         ('dash-form-skips-the-first-condition', 'brush-builtins/src/trap.rs', "            for signal in &self.args[1..] {\n                Self::remove_all_handlers(&mut context, signal.parse()?);\n            }", "            for signal in &self.args[2..] {\n                Self::remove_all_handlers(&mut context, signal.parse()?);\n            }"),
     ],
     'U34': [
+        ('declare-g-modifies-the-local-again', 'brush-builtins/src/declare.rs', "        } else if self.create_global {\n            // `-g` names the global variable, whatever locals of that name are in scope.\n            EnvironmentLookup::OnlyInGlobal\n        } else {", "        } else {"),
         ('unset-readonly-variable-accepts-its-first-value', 'brush-core/src/variables.rs', "    pub fn assign(&mut self, value: ShellValueLiteral, append: bool) -> Result<(), error::Error> {\n        if self.is_readonly() {", "    pub fn assign(&mut self, value: ShellValueLiteral, append: bool) -> Result<(), error::Error> {\n        if self.is_readonly() && self.value.is_set() {"),
         ('declare-in-a-function-looks-everywhere', 'brush-builtins/src/declare.rs', "        let lookup = if create_var_local {", "        let lookup = if matches!(verb, DeclareVerb::Local) {"),
         ('declare-g-still-creates-a-local', 'brush-builtins/src/declare.rs', "                && context.shell.in_function()\n                && !self.create_global);", "                && context.shell.in_function());"),
@@ -951,6 +952,7 @@ fn spawn_async_ao_list_in_task'''),
         ('export-name-on-an-existing-variable-does-nothing-with-n', 'brush-builtins/src/export.rs', "                    if self.unexport {\n                        variable.unexport();\n                    } else {\n                        variable.export();\n                    }\n                }\n            }", "                    if !self.unexport {\n                        variable.export();\n                    }\n                }\n            }"),
     ],
     'U48': [
+        ('appending-temporary-assignment-forgets-the-old-value', 'brush-core/src/interp.rs', "            let mut new_var = existing_value.clone();\n            new_var.assign(new_value, true)?;", "            let mut new_var = ShellVariable::new(ShellValue::String(String::new()));\n            new_var.assign(new_value, true)?;"),
         ('temporary-assignment-shadows-a-readonly-variable-again', 'brush-core/src/interp.rs', "        if existing_value.is_readonly() {\n            return Err(error::ErrorKind::ReadonlyVariable.into());\n        }\n", ""),
         ('assignment-drops-the-export-attribute', 'brush-core/src/interp.rs', "            if export {\n                existing_value.export();\n            }\n\n            // That's it!", "            if export {\n                existing_value.export();\n            } else {\n                existing_value.unexport();\n            }\n\n            // That's it!"),
         ('new-variable-goes-to-the-global-scope', 'brush-core/src/interp.rs', "    shell.env_mut().add(variable_name, new_var, creation_scope)\n}", "    shell.env_mut().add(variable_name, new_var, EnvironmentScope::Global)\n}"),
